@@ -1155,3 +1155,43 @@ Proof.
     repeat (destruct H as [<-|H]; [exists (b "<>; rel=""first"", "); vm_compute; reflexivity|]).
     contradiction.
 Qed.
+
+(* ---------- pingReferrers ---------- *)
+
+Ltac ping_fin :=
+  repeat split; intros; try discriminate; try tauto; auto;
+  try (match goal with H : _ \/ _ |- _ => destruct H; discriminate end);
+  try (match goal with H : _ /\ _ |- _ => destruct H; contradiction end).
+
+(* a known capability is returned as is; from the unknown state the answer "unsupported" is
+   given exactly for the responses that Referrers itself reads as "no referrers API", and
+   "supported" only for responses it accepts as referrers responses *)
+Lemma ping_spec st rs c :
+  c_kind c = KReferrers ->
+  (st = RSupported -> ping st rs = (st, Some true)) /\
+  (st = RUnsupported -> ping st rs = (st, Some false)) /\
+  (st = RUnknown ->
+     (snd (ping st rs) = Some false <->
+        (handle c rs = inl ErrUnsupported \/ handle c rs = inl ErrCType)) /\
+     (snd (ping st rs) = Some true <-> (rs_status rs = 200 /\ rs_ctype rs = mediaTypeImageIndex)) /\
+     (fst (ping st rs) = RUnsupported <-> snd (ping st rs) = Some false) /\
+     (fst (ping st rs) = RSupported <-> snd (ping st rs) = Some true) /\
+     (fst (ping st rs) = RUnknown <-> snd (ping st rs) = None)).
+Proof.
+  intro K. split; [intros ->; reflexivity|]. split; [intros ->; reflexivity|]. intros ->.
+  unfold ping, handle, status_error, ctype_bad. rewrite K.
+  destruct (rs_status rs =? 200) eqn:S2.
+  - apply N.eqb_eq in S2. cbn [negb].
+    destruct (str_eqb (rs_ctype rs) mediaTypeImageIndex) eqn:E; cbn [negb fst snd].
+    + apply str_eqb_spec in E.
+      destruct (negb (body_fits c rs));
+        [|destruct (is_empty (c_at c));
+          [|destruct (is_filter_applied (rs_fhdr rs) filterTypeArtifactType
+                      || is_filter_applied (rs_fann rs) filterTypeArtifactType)]]; ping_fin.
+    + assert (N : rs_ctype rs <> mediaTypeImageIndex) by (intro H; rewrite H, str_eqb_refl in E; discriminate).
+      ping_fin.
+  - cbn [negb]. assert (N2 : rs_status rs <> 200) by (intro H; rewrite H in S2; discriminate).
+    destruct (rs_status rs =? 404) eqn:S4; cbn [andb].
+    + destruct (rs_name_unknown rs); cbn [negb fst snd]; ping_fin.
+    + cbn [fst snd]. ping_fin.
+Qed.
